@@ -8,7 +8,7 @@ NAMES = {1: 'decode_path', 2: 'urldecode', 3: 'utf8_decode', 4: 'utf8_validate',
 def exact(func, ln, tier='quick'):
     return Ob('exact.%s.len%d' % (NAMES[func], ln), 'mem/exact.c', units=U, models=['@libc_model.c'], remove=['htp_log'], defines={'FUNC': func, 'LEN': ln}, unwind=ln + 4,
               unwindset=['strlen.0:40', 'htp_convert_method_to_number.0:45', 'bestfit_codepoint.0:6', 'decode_u_encoding_path.0:6', 'decode_u_encoding_params.0:6', 'htp_utf8_decode_path_inplace.0:%d' % (2 * ln + 2), 'htp_header_has_token.0:12'],
-              tier=tier, timeout=600, mem_gb=6, cost=10, statement='%s on an exact-size buffer: no out-of-bounds access, no invalid free, output never longer' % NAMES[func],
+              tier=tier, timeout=600, mem_gb=6, cost=10, unwind_violation=True, statement='%s on an exact-size buffer: no out-of-bounds access, no invalid free, output never longer' % NAMES[func],
               bounds='buffer of exactly %d bytes (all values), every decoder switch / personality symbolic' % ln)
 def obligations(tier):
     obs = []
@@ -18,8 +18,9 @@ def obligations(tier):
     # every stream state function on an exact-size chunk (pointer/len pairs handed out are checked in the stubs)
     cheap_req = [1, 3, 5, 6, 7, 8, 9, 11, 12, 13, 14]; cheap_res = [1, 5, 6, 8, 9, 10]
     obs += [so.req_step(s, n=4, exact=True) for s in cheap_req] + [so.res_step(s, n=4, exact=True) for s in cheap_res]
+    obs += [so.res_step(7, n=4, exact=True)]
     if tier == 'thorough':
-        obs += [so.req_step(s, n=4, exact=True, tier='thorough') for s in (2, 4, 10)] + [so.res_step(s, n=(3 if s == 3 else 4), exact=True, tier='thorough') for s in (2, 3, 4, 7)]
+        obs += [so.req_step(s, n=4, exact=True, tier='thorough') for s in (2, 4, 10)] + [so.res_step(s, n=(3 if s == 3 else 4), exact=True, tier='thorough') for s in (2, 3, 4)]
     # callbacks destroying completed transactions (auto-destroy) in the bounded histories, completion functions, list bookkeeping
     obs += [o for o in __import__('C13').obligations(tier) if o.tier == 'quick']
     obs += [o for o in txobs.hist_all(tier, 'quick') if '.ad1.' in o.name] + [o for o in txobs.complete_all('quick') if o.name.endswith('ad1')] + txobs.pairing('quick')
